@@ -11,6 +11,14 @@ Definition chk_apply (e : enc) (v1 : view) (ps : list patch) (v2 : view) : bool 
   | None => false
   end.
 
+(* per-object diffs: any two nodes of the same kind and id *)
+Definition chk_apply_node (e : enc) (v1 : view) (ps : list patch) (v2 : view) : bool :=
+  wf_node v1 && wf_node v2 && same_shell v1 v2 &&
+  match apply_patches e ps v1 with
+  | Some v => view_eqb v v2
+  | None => false
+  end.
+
 (* a chain of batches (C09): the view is carried only by the applier; after batch i it must equal
    the i-th recorded view *)
 Fixpoint chk_chain (e : enc) (v : view) (steps : list (list patch * view)) : bool :=
